@@ -7,7 +7,7 @@ NOTE = ("Trusted: Lean 4.33 kernel with axioms {propext, Classical.choice, Quot.
         "only by the differential correspondence check (sampled, generators and tolerances in DESIGN.md 2.4); theorems are over the reals, "
         "the code runs IEEE doubles; externals (SciPy DST/root, LAPACK inv, polyfit, allclose, loadtxt, deepcopy, pint) are modelled, not verified.")
 CLAIMED = {
- 'C15': ("Lean theorems by induction over arbitrary assignment histories (density_inv, diameter_inv, *_set_rho, *_check_iff, sphereVol_eq) about a "
+ 'C15': ("Lean theorems by induction over arbitrary assignment histories (density_inv, diameter_inv, *_set_rho, *_check_iff, sphereVol_eq; setSigma_read / setSigma_frame / setSigma_overwritten_by_diameter for direct writes into the sigma table: read back from both orders, nothing else touched, replaced by the mean when one of the two diameters is assigned again) about a "
          "loop-for-loop model of Density/Diameter.__setitem__; the model is executed on Float by the driver and compared bit-exactly with the real "
          "objects after every op of random histories; the invariant is also evaluated directly on the implementation.",
          "4 C15", "Lean 4 proof (induction over op lists) + differential correspondence"),
@@ -111,7 +111,7 @@ CLAIMED = {
          "4 C11", "Lean 4 proof (induction, geometric sums, limits) + differential correspondence; partial for Koyama/NFJC kernels"),
  'C16': ("Lean theorems, value level (Model/Prism.lean): check_iff_complete, createPRISM_error_iff (ValueError exactly when a density, diameter, potential, closure, omega or the domain is missing, and then "
          "nothing is built), snapshot_wiring (rank, kT, domain, per pair closure class/flag, closure sigma = Diameter table, potential sigma = own or default, closure.potential = U(r)/kT on the r grid, "
-         "omega = omega(k) rho_site on the k grid, symmetric, Fourier). Object level (Model/SysHeap.lean: potentials/closures are cells of an explicit store, PairTable assignment and deepcopy(sys) allocate, "
+         "omega = omega(k) rho_site on the k grid, symmetric, Fourier), explicit_sigma_kept, sigma_table_override_used (a non-additive contact distance written into diameter.sigma[i,j] is the closure's core edge and the default potential sigma of that pair, every other pair keeps its value). Object level (Model/SysHeap.lean: potentials/closures are cells of an explicit store, PairTable assignment and deepcopy(sys) allocate, "
          "PRISM.__init__ writes only its copies): step_isolated, later_edits_do_not_reach_prism and reachable_inv (induction over ARBITRARY operation sequences: no cell owned by an existing PRISM object ever "
          "changes, System references and PRISM-owned cells stay disjoint), snapshot_wiring_values (with C15's invariants: closure sigma = (d_a+d_b)/2, omega scaled by rho_a / rho_a+rho_b), create_does_not_write_system (the System's meaning absSys is unchanged by createPRISM), sweep_equals_fresh (the PRISM created after any "
          "history is createPRISM of the System's current meaning), create_refused_iff, explicit_sigma_kept (an explicitly given sigma, also 0, is used as it is), create_cells_agree and prism_objects_always_agree (every PRISM object, at every moment of every history, holds in its private potential / closure objects exactly what its value-level state says, so what an existing object computes cannot change through later System operations), step_abs and history_refines_spec (REFINEMENT: under the abstraction absSys every store-level history is the corresponding history of the plain value-level System, for arbitrary operation lists), and the negation witness aliased_create_changes_system for the variant that iterates the caller's table. The store model "
